@@ -1,5 +1,6 @@
 import GV.Lib.Line
 import GV.Model.KesSym
+import GV.Gen.GoLite
 /-
   op:  kes <d> <seedhex> <oseedhex> <t> <p> <keyterm> <m0hex> <m1hex> <signmsg> <vermsg> <mutation…>
        d ∈ 1..7; t = number of Update calls; p = period passed to Sign;
@@ -114,8 +115,45 @@ def bigPeriods : List Nat := [2 ^ 32, 2 ^ 63, 2 ^ 64 - 1]
 
 def bits (l : List Bool) : String := String.ofList (l.map (fun b => if b then '1' else '0'))
 
+/-- an all-zero key / signature of the given depth -/
+def zeroKey : Nat → SKey Tm Tm
+  | 0 => .leaf Tm.zero
+  | d + 1 => .node (zeroKey d) Tm.zero Tm.zero Tm.zero
+
+/-- `kesd <depth> <period>`: MaxPeriod / SignatureSize (the regenerated GoLite translations of the
+    Go functions), parsing and verifying an all-zero signature, Sign / Update on an all-zero key,
+    at depths around and beyond the width of the `1 << depth` shift. -/
+def handleDepth (depth period : Nat) : Out :=
+  -- (`2 ^ depth` cannot be evaluated for astronomically large depths: beyond 1000 the proved
+  --  closed form `gen_maxPeriod_eq` is used)
+  let mx : Int := if depth ≤ 1000 then GV.Gen.GoLite.kesMaxPeriod (depth : Int) else (shl1 depth : Int)
+  let sz := GV.Gen.GoLite.kesSignatureSize (depth : Int)
+  let head := s!"max={mx} size={sz}"
+  if depth > 200 then { model := head ++ " parse=- parse1=- v=- sign=- upd=-" }
+  else if depth = 0 then
+    let p := match newSumKesFromBytes (Key := Tm) 0 64 Tm.zero [] with | .ok _ => "ok" | .error _ => "err"
+    { model := head ++ s!" parse={p} parse1=- v=- sign=- upd=-" }
+  else
+    let keys := List.replicate (2 * depth) Tm.zero
+    let n := signatureSize depth
+    let (p, v) := match newSumKesFromBytes depth n Tm.zero keys with
+      | .ok ks => ("ok", boolStr (verify sym ks period Tm.zero (0 : Nat)))
+      | .error _ => ("err", "-")
+    let p1 := match newSumKesFromBytes depth (n + 1) Tm.zero keys with | .ok _ => "ok" | .error _ => "err"
+    let sk : SecretKey Tm Tm := { depth := depth, period := 0, data := some (zeroKey depth), pk := Tm.zero }
+    let sg := match sign sym sk period (0 : Nat) with
+      | .ok _ => "ok" | .error .erased => "err:erased" | .error .periodTooLarge => "err:period"
+      | .error .wrongPeriod => "err:wrong"
+    let up := match update sym sk with
+      | .ok _ => "ok" | .error .erased => "err:erased" | .error .exhausted => "err:exhausted"
+    { model := head ++ s!" parse={p} parse1={p1} v={v} sign={sg} upd={up}" }
+
 def handle (line : String) : Out :=
   match tokens line with
+  | ["kesd", depth, period] =>
+    match parseNat? depth, parseNat? period with
+    | some d, some p => if d ≥ 2 ^ 64 ∨ p ≥ 2 ^ 64 then badOp else handleDepth d p
+    | _, _ => badOp
   | "kes" :: d :: seed :: oseed :: t :: p :: keyT :: m0 :: m1 :: sm :: vm :: mutToks =>
     match parseNat? d, parseNat? t, parseNat? p, parseNat? sm, parseNat? vm with
     | some d, some t, some p, some sm, some vm =>
